@@ -248,7 +248,18 @@ func runBM25History(r *rand.Rand, nops int, allowReadd bool, t *Trace) *Case {
 					addLn(joined)
 				}
 			}
-			s := ix.NewSearch().WithK(k).WithScoreAggregation(aggs[aggz]).WithCutoff(cutoff)
+			s := ix.NewSearch().WithScoreAggregation(aggs[aggz])
+			if r.Intn(8) == 0 { // builder default: k = 10
+				k = 10
+				t.Stat("bm25.search_default_k")
+			} else {
+				s = s.WithK(k)
+			}
+			if cutoff == -1 && r.Intn(2) == 0 { // builder default: no cutoff
+				t.Stat("bm25.search_default_cutoff")
+			} else {
+				s = s.WithCutoff(cutoff)
+			}
 			if nq > 0 {
 				s = s.WithQuery(qs...)
 			}
